@@ -18,7 +18,7 @@ ASSUMPTIONS = ['refmodel/raster.py (independent readers), refmodel/colors.py (in
                'held = held on the renders listed here']
 REQUIRED = ['evaluations', 'renders_checked', 'kind:png', 'kind:pbm', 'kind:pam', 'kind:ppm', 'kind:xbm', 'kind:xpm', 'kind:txt',
             'kind:ans', 'kind:compact', 'scale_lt_1_refused', 'png_depth:1', 'png_transparent']
-TIMEOUT = {'quick': 900, 'thorough': 7200}
+TIMEOUT = {'quick': 3600, 'thorough': 21600}
 
 NAMED = ['black', 'white', 'red', 'blue', 'yellow', 'navy', 'gold', 'Olive', 'DARKRED', 'steelblue', 'grey', 'aliceblue',
          'antiquewhite', 'aqua', 'aquamarine', 'azure', 'yellowgreen', 'whitesmoke']
